@@ -18,29 +18,30 @@ From Coq Require Import List NArith Bool Permutation.
 Import ListNotations.
 From V Require Import lib.Bytes model.Walk spec.WalkSpec proofs.WalkProof.
 
-(* FULL STATEMENT (false of the code, see C15_generate_spec_refuted): the same without the hypothesis
-   [should_skip_name root = false].  The guard is decidable: the base name of the directory the command is run on
-   is not vendor / node_modules and does not start with '.' or '_'. *)
-Theorem C15_generate_spec_partial :
+(* For every well-formed tree - whatever the root directory is called - every worker count, flag set and complete
+   interleaved run: the final tree and exit status are the ones the property demands. *)
+Theorem C15_generate_spec :
   forall (generate : path -> bytes -> option bytes) (keep lazy : bool) (now : N)
          (root : bytes) (l : listing) (w : nat) (es : list path) (c : cfg),
   wf_tree generate lazy root l = true ->
-  should_skip_name root = false ->
   (1 <= w)%nat ->
-  NoDup es /\ (forall p, In p (walk root l) -> In p es)
-           /\ (forall p, In p es -> In p (walk root l) \/ late_gen (lookup l) p) ->
+  NoDup es /\ (forall p, In p (walk l) -> In p es)
+           /\ (forall p, In p es -> In p (walk l) \/ late_gen (lookup l) p) ->
   steps generate keep lazy now w (start_cfg (lookup l) es) c -> finished c ->
   spec_holds generate keep l (ctree c) (exit_fail (cerrs c)).
-Proof. intros g k z n root l w es c WF R _ EV. exact (generate_spec g k z n root l w es c WF R EV). Qed.
-Print Assumptions C15_generate_spec_partial.
+Proof. intros g k z n root l w es c WF _ EV. exact (generate_spec g k z n root l w es c WF EV). Qed.
+Print Assumptions C15_generate_spec.
 
-(* A root directory whose own name is skipped: nothing is generated and the command succeeds. *)
+(* REGRESSION WITNESS (about the behaviour BEFORE commit 91f7c9a, not about the current code): a walk that also tests
+   the root directory's own name (walk_root_tested) emits nothing for a root called _site; the command then succeeds
+   and the specification fails - the template has no sibling.  The harness reports that behaviour under the shape
+   root-dir-name-skipped. *)
 Definition ex_gen : path -> bytes -> option bytes := fun _ _ => Some (bs "code").
 Definition ex_tree : listing := [(([], bs "a.templ"), File (bs "src") 1%N)].
-Theorem C15_generate_spec_refuted :
+Lemma C15_root_tested_variant_refuted :
   exists (root : bytes) (c : cfg),
     wf_tree ex_gen false root ex_tree = true /\ should_skip_name root = true /\
-    steps ex_gen false false 5%N 1 (start_cfg (lookup ex_tree) (walk root ex_tree)) c /\ finished c /\
+    steps ex_gen false false 5%N 1 (start_cfg (lookup ex_tree) (walk_root_tested root ex_tree)) c /\ finished c /\
     exit_fail (cerrs c) = false /\
     ~ spec_holds ex_gen false ex_tree (ctree c) (exit_fail (cerrs c)).
 Proof.
@@ -49,7 +50,11 @@ Proof.
   split; [apply steps_refl|]. split; [split; reflexivity|]. split; [reflexivity|].
   intros [H _]. specialize (H ([], bs "a_templ.go")). vm_compute in H. discriminate H.
 Qed.
-Print Assumptions C15_generate_spec_refuted.
+(* the current walk does not look at the root's name *)
+Example C15_ex_root_name_irrelevant :
+  walk ex_tree = [([], bs "a.templ")]
+  /\ tree (run ex_gen false false 5%N (init (lookup ex_tree)) (walk ex_tree)) ([], bs "a_templ.go") = Some (File (bs "code") 5%N).
+Proof. vm_compute. split; reflexivity. Qed.
 
 (* Any two complete interleavings - any worker counts, any order in which the events reach the handlers - end in
    the same tree with the same error count.  No hypothesis on the tree. *)
@@ -70,12 +75,12 @@ Theorem C15_second_run_noop :
          (root : bytes) (l : listing) (w : nat) (es : list path) (c : cfg)
          (now2 : N) (w2 : nat) (l1 : listing) (es2 : list path) (c2 : cfg),
   wf_tree generate lazy root l = true ->
-  NoDup es /\ (forall p, In p (walk root l) -> In p es)
-           /\ (forall p, In p es -> In p (walk root l) \/ late_gen (lookup l) p) ->
+  NoDup es /\ (forall p, In p (walk l) -> In p es)
+           /\ (forall p, In p es -> In p (walk l) \/ late_gen (lookup l) p) ->
   steps generate keep lazy now w (start_cfg (lookup l) es) c -> finished c ->
   NoDup (map fst l1) -> (forall q, lookup l1 q = ctree c q) ->
-  NoDup es2 /\ (forall p, In p (walk root l1) -> In p es2)
-            /\ (forall p, In p es2 -> In p (walk root l1) \/ late_gen (lookup l1) p) ->
+  NoDup es2 /\ (forall p, In p (walk l1) -> In p es2)
+            /\ (forall p, In p es2 -> In p (walk l1) \/ late_gen (lookup l1) p) ->
   steps generate keep lazy now2 w2 (start_cfg (lookup l1) es2) c2 -> finished c2 ->
   forall q, content_of (ctree c2 q) = content_of (ctree c q).
 Proof. exact second_run_noop. Qed.
@@ -86,16 +91,16 @@ Print Assumptions C15_second_run_noop.
 Theorem C15_failure_isolated :
   forall (generate : path -> bytes -> option bytes) (keep lazy : bool) (now : N)
          (root : bytes) (l : listing) (w : nat) (es : list path) (c : cfg),
-  wf_tree generate lazy root l = true -> should_skip_name root = false -> (1 <= w)%nat ->
-  NoDup es /\ (forall p, In p (walk root l) -> In p es)
-           /\ (forall p, In p es -> In p (walk root l) \/ late_gen (lookup l) p) ->
+  wf_tree generate lazy root l = true -> (1 <= w)%nat ->
+  NoDup es /\ (forall p, In p (walk l) -> In p es)
+           /\ (forall p, In p es -> In p (walk l) \/ late_gen (lookup l) p) ->
   steps generate keep lazy now w (start_cfg (lookup l) es) c -> finished c ->
   (forall src, In src (map fst l) -> fails generate (lookup l) src = true -> exit_fail (cerrs c) = true)
   /\ (forall src g cc mt code, outside_skipped src = true -> sibling src g ->
         lookup l src = Some (File cc mt) -> generate src cc = Some code -> content_of (ctree c g) = CFile code).
 Proof.
-  intros g k z n root l w es c WF R _ EV St Fi.
-  exact (failure_isolated g k l (ctree c) _ (generate_spec g k z n root l w es c WF R EV St Fi)).
+  intros g k z n root l w es c WF _ EV St Fi.
+  exact (failure_isolated g k l (ctree c) _ (generate_spec g k z n root l w es c WF EV St Fi)).
 Qed.
 Print Assumptions C15_failure_isolated.
 
@@ -104,14 +109,14 @@ Print Assumptions C15_failure_isolated.
 Theorem C15_untouched :
   forall (generate : path -> bytes -> option bytes) (keep lazy : bool) (now : N)
          (root : bytes) (l : listing) (w : nat) (es : list path) (c : cfg),
-  wf_tree generate lazy root l = true -> should_skip_name root = false -> (1 <= w)%nat ->
-  NoDup es /\ (forall p, In p (walk root l) -> In p es)
-           /\ (forall p, In p es -> In p (walk root l) \/ late_gen (lookup l) p) ->
+  wf_tree generate lazy root l = true -> (1 <= w)%nat ->
+  NoDup es /\ (forall p, In p (walk l) -> In p es)
+           /\ (forall p, In p es -> In p (walk l) \/ late_gen (lookup l) p) ->
   steps generate keep lazy now w (start_cfg (lookup l) es) c -> finished c ->
   forall q, ~ (outside_skipped q = true /\ exists src, sibling src q) -> ctree c q = lookup l q.
 Proof.
-  intros g k z n root l w es c WF R _ EV St Fi.
-  exact (untouched g k l (ctree c) _ (generate_spec g k z n root l w es c WF R EV St Fi)).
+  intros g k z n root l w es c WF _ EV St Fi.
+  exact (untouched g k l (ctree c) _ (generate_spec g k z n root l w es c WF EV St Fi)).
 Qed.
 Print Assumptions C15_untouched.
 
@@ -130,10 +135,10 @@ Proof.
   intros g k z n w t es W. eexists. split; [apply (sequential_steps g k z n w t es W)|split; reflexivity].
 Qed.
 (* the walk itself is an admissible event list *)
-Lemma C15_ex_events : forall root l, NoDup (map fst l) ->
-  NoDup (walk root l) /\ (forall p, In p (walk root l) -> In p (walk root l))
-  /\ (forall p, In p (walk root l) -> In p (walk root l) \/ late_gen (lookup l) p).
-Proof. intros root l ND. exact (walk_events_ok root l ND). Qed.
+Lemma C15_ex_events : forall l, NoDup (map fst l) ->
+  NoDup (walk l) /\ (forall p, In p (walk l) -> In p (walk l))
+  /\ (forall p, In p (walk l) -> In p (walk l) \/ late_gen (lookup l) p).
+Proof. intros l ND. exact (walk_events_ok l ND). Qed.
 (* a well-formed tree with a skipped directory, an orphan, a failing and a succeeding template; the run on it *)
 Definition ex2_gen : path -> bytes -> option bytes :=
   fun p c => if bytes_eqb c (bs "bad") then None else Some (bs "go:" ++ c).
@@ -144,11 +149,11 @@ Definition ex2_tree : listing :=
     (([], bs "vendor"), Dir);
     (([bs "vendor"], bs "v.templ"), File (bs "V") 10%N);
     (([], bs "main.go"), File (bs "package main") 2%N) ].
-Example C15_ex_wf : wf_tree ex2_gen true (bs "site") ex2_tree = true /\ should_skip_name (bs "site") = false.
+Example C15_ex_wf : wf_tree ex2_gen true (bs "site") ex2_tree = true /\ wf_tree ex2_gen true (bs "_site") ex2_tree = true.
 Proof. split; vm_compute; reflexivity. Qed.
 Example C15_ex_run :
-  let st := run ex2_gen false false 99%N (init (lookup ex2_tree)) (walk (bs "site") ex2_tree) in
-  walk (bs "site") ex2_tree = [([], bs "a.templ"); ([], bs "b.templ"); ([], bs "main.go"); ([], bs "old_templ.go")]
+  let st := run ex2_gen false false 99%N (init (lookup ex2_tree)) (walk ex2_tree) in
+  walk ex2_tree = [([], bs "a.templ"); ([], bs "b.templ"); ([], bs "main.go"); ([], bs "old_templ.go")]
   /\ tree st ([], bs "a_templ.go") = Some (File (bs "go:A") 99%N)
   /\ tree st ([], bs "b_templ.go") = None
   /\ tree st ([], bs "old_templ.go") = None
